@@ -79,17 +79,17 @@ PROPS = {
                "untouched on early exit. Tied to the code by exhaustive + random differential runs (all indices incl. out of range with catch_unwind, all decision sequences on vectors <= 3)."),
         technique="Lean 4 proof (induction over the traversal loop, case analysis per mutator) + model/implementation correspondence",
         design_ref="DESIGN.md §6 C17"),
-    "C05": dict(vec_prop(["EyeballVerif.Props.C05"],
-        "c05_exec_faithful: for every mutator and contents, the recorded diff replayed strictly on the contents before gives the contents after; no diff only if nothing changed; every diff is validOn the contents"),
-        claim=("Lean 4 theorem c05_exec_faithful (every call's diff, replayed strictly on the state before, yields the state after; documented no-ops record nothing; exactly one diff otherwise) "
+    "C05": dict(vec_prop(["EyeballVerif.Props.C05", "EyeballVerif.Props.StreamReach"],
+        "c05_replay_inv (at every reachable state — any capacity, any finite sequence of updates, traversals, transactions, subscriptions, drops and polls — every live receiver's replica is defined and replaying what the channel still owes it yields the current contents), c05_delivered_applicable, c05_caught_up_equal, c05_never_panics; c05_exec_faithful: for every mutator and contents, the recorded diff replayed strictly on the contents before gives the contents after; no diff only if nothing changed; every diff is validOn the contents"),
+        claim=("Lean 4 theorems: stream invariant VInv preserved by every event (vinv_vstep) hence c05_replay_inv at every reachable state: every delivered diff was applicable to the subscriber's replica, and replica + still-owed diffs = current contents; c05_exec_faithful (every call's diff, replayed strictly on the state before, yields the state after; documented no-ops record nothing; exactly one diff otherwise) "
                "plus the receiver-level theorems shared with C06/C08; tied to the code by the vec engine, whose implementation-side oracle replays every delivered diff on a strict replica "
                "and compares it with the vector after every message, for plain and batched streams."),
-        technique="Lean 4 proof (per-operation refinement) + model/implementation correspondence",
+        technique="Lean 4 proof (reachable-state invariant by induction over event sequences; per-operation refinement) + model/implementation correspondence",
         design_ref="DESIGN.md §6 C05"),
-    "C06": dict(vec_prop(["EyeballVerif.Props.C06"],
-        "c06_plain_reset / c06_batched_reset: a Reset is handed out only when more than B messages were pending, carries the newest recorded state and consumes the log; "
+    "C06": dict(vec_prop(["EyeballVerif.Props.C06", "EyeballVerif.Props.StreamReach"],
+        "c06_lagged_reset_current (at every reachable state a receiver more than a window behind gets exactly Reset(current contents) and is then in sync), c06_pending_synced (Pending only to a receiver whose replica equals the contents); c06_plain_reset / c06_batched_reset: a Reset is handed out only when more than B messages were pending, carries the newest recorded state and consumes the log; "
         "c06_window_ge_capacity: B >= capacity; c06_batched_consumes_all; c06_pending_consumed_all — for every log, window size and cursor"),
-        claim=("Lean 4 theorems over every log, window size B, cursor and closed flag: Reset only if more than B >= capacity messages were pending and it carries the newest message's state "
+        claim=("Lean 4 theorems: at every reachable state (any event sequence) a lagged receiver is handed Reset(current contents) and is in sync afterwards (c06_lagged_reset_current), Pending is answered only to a receiver in sync (c06_pending_synced); over every log, window size B, cursor and closed flag: Reset only if more than B >= capacity messages were pending and it carries the newest message's state "
                "(c06_plain_reset, c06_batched_reset, c06_window_ge_capacity); Pending only when nothing is left to deliver (c06_pending_consumed_all); a batched item consumes everything "
                "(c06_batched_consumes_all). Tied to the code by lag scenarios over capacities 1..8 (exhaustive in the number of unpolled updates) and random histories."),
         technique="Lean 4 proof (induction over the drain loops of handle_lag / batched poll) + model/implementation correspondence",
@@ -102,10 +102,10 @@ PROPS = {
                "copy, publishes nothing for an empty batch and otherwise exactly one message carrying the whole batch (c07_commit, c07_commit_replay). Tied to the code by exhaustive transaction bodies."),
         technique="Lean 4 proof (invariant by induction over transaction events) + model/implementation correspondence",
         design_ref="DESIGN.md §6 C07"),
-    "C08": dict(vec_prop(["EyeballVerif.Props.C08"],
-        "c08_no_early_end: for every log/window/receiver state a poll on an open channel never reports the end; c08_end_consumed_all: the end is reported only with the cursor at the end of the log; "
+    "C08": dict(vec_prop(["EyeballVerif.Props.C08", "EyeballVerif.Props.StreamReach"],
+        "c08_end_final (at every reachable state a stream ends only after the vector was dropped and with the replica equal to the final contents); c08_no_early_end: for every log/window/receiver state a poll on an open channel never reports the end; c08_end_consumed_all: the end is reported only with the cursor at the end of the log; "
         "c08_lagged_after_drop_gets_final: a lagging receiver of a dropped vector first receives Reset(final state); c08_drop_wakes"),
-        claim=("Lean 4 theorems over every log, window and receiver state: no end-of-stream while the sender exists (c08_no_early_end); the end is reported only after everything was delivered "
+        claim=("Lean 4 theorems: at every reachable state the end is reported only after the drop and to a receiver whose replica equals the final contents (c08_end_final); over every log, window and receiver state: no end-of-stream while the sender exists (c08_no_early_end); the end is reported only after everything was delivered "
                "(c08_end_consumed_all); a receiver that lagged when the vector was dropped is first reset to the final state (c08_lagged_after_drop_gets_final — the repaired defect D6); dropping "
                "wakes every parked receiver (c08_drop_wakes). Tied to the code by drop scenarios for every capacity 1..8 x lag depth x flavour."),
         technique="Lean 4 proof (case analysis over receiver outcomes, induction over handle_lag) + model/implementation correspondence",
